@@ -239,6 +239,10 @@ func (c *Connection) doConnect(ctx context.Context, setRetry func(time.Duration)
 		if errors.Is(err, ctx.Err()) {
 			return false, concrete.Err
 		}
+		if ctx.Err() != nil && errors.Is(err, context.Cause(ctx)) {
+			// cancelled with a cause: net/http reports the cause then, not ctx.Err()
+			return false, ctx.Err()
+		}
 		return true, &ConnectionError{Req: c.request, Reason: "connection to server failed", Err: concrete.Err}
 	}
 	defer res.Body.Close()
@@ -252,6 +256,9 @@ func (c *Connection) doConnect(ctx context.Context, setRetry func(time.Duration)
 	err = c.read(res.Body, setRetry)
 	if errors.Is(err, ctx.Err()) {
 		return false, err
+	}
+	if ctx.Err() != nil && errors.Is(err, context.Cause(ctx)) {
+		return false, ctx.Err()
 	}
 
 	return true, &ConnectionError{Req: c.request, Reason: "connection to server lost", Err: err}
